@@ -27,7 +27,12 @@ def opRpcWsRun (j : Json) : Json :=
     | "reconnect" =>
       let order := match o.getObjVal? "order" with | .ok (.arr xs) => xs.toList.map fun x => (match x with | .num n => n.mantissa.toNat | _ => 0) | _ => []
       let s1 := Ws.step s (.reconnectClear order)
-      (s1.resubQueue.foldl (fun st _ => Ws.step st .resubscribe) s1, bad, hidden)
+      -- the property itself: every configured subscription is re-requested (once) on the new connection — the
+      -- observed order must be a permutation of the configured ones
+      let missing := if s.reconnectEnabled then s.configured.filter (fun l => !order.contains l) else []
+      let extra := if s.reconnectEnabled then order.filter (fun l => !s.configured.contains l || order.count l != 1) else []
+      let bad' := bad ++ missing.map (fun (l : Nat) => Json.mkObj [("resubscribeMissing", Json.num (JsonNumber.fromNat l))]) ++ extra.map (fun (l : Nat) => Json.mkObj [("resubscribeUnexpected", Json.num (JsonNumber.fromNat l))])
+      (s1.resubQueue.foldl (fun st _ => Ws.step st .resubscribe) s1, bad', hidden)
     | "unsubscribe" => (Ws.step s (.unsubscribe (natOf' o "sub")), bad, hidden)
     | _ => (s, bad, hidden)) (Ws.init (boolOf j "reconnectEnabled"), [], [])
   -- per caller: ok / err / pending
@@ -52,7 +57,12 @@ def opRpcWsRun (j : Json) : Json :=
     | _ => none
   Json.mkObj [("calls", callsJ), ("subs", subsJ), ("frames", Json.arr frames.toArray),
     ("tables", Json.mkObj [("calls", s.calls.length), ("pending", s.pending.length), ("active", s.active.length), ("configured", s.configured.length)]),
-    ("idMismatch", Json.arr idMismatch.toArray)]
+    ("idMismatch", Json.arr (idMismatch.filter fun o => (o.getObjVal? "resubscribeMissing").toOption.isNone && (o.getObjVal? "resubscribeUnexpected").toOption.isNone).toArray),
+    ("specViolations", Json.arr ((idMismatch.filterMap fun o =>
+        match o.getObjVal? "resubscribeMissing", o.getObjVal? "resubscribeUnexpected" with
+        | .ok l, _ => some (Json.str s!"configured subscription {l} was not re-requested on the new connection after a reconnect")
+        | _, .ok l => some (Json.str s!"subscription {l} was re-requested after a reconnect although it is not configured (or more than once)")
+        | _, _ => none)).toArray)]
 
 def opRpcHttpRun (j : Json) : Json :=
   let ops := match j.getObjVal? "ops" with | .ok (.arr xs) => xs.toList | _ => []
